@@ -162,6 +162,10 @@ func init() {
 func runC10(rcx *RunCtx) {
 	cfg := simCfg(rcx)
 	p := rcx.Plan
+	if k := rcx.Index - len(c10Catalogue); k >= 0 && k < c10ExhaustKinds {
+		runC10Exhaust(rcx, k)
+		return
+	}
 	var dir *c10Directed
 	if rcx.Index < len(c10Catalogue) {
 		dir = &c10Catalogue[rcx.Index]
@@ -348,9 +352,9 @@ func init() {
 		ID:   "C10",
 		Desc: "client multiplexing: distinct tags/fids, replies reach their own caller, no hang on faults",
 		Run:  runC10,
-		Directed: func(string) int { return len(c10Catalogue) },
+		Directed: func(string) int { return len(c10Catalogue) + c10ExhaustKinds },
 		Quick:    48000, Thorough: 4000000, QuickSecs: 60, ThorSecs: 1500,
-		Rule:  fmt.Sprintf("directed: batches of 1-4 concurrent calls x EVERY reply permutation x %d fault kinds (none; reply cut mid-frame then EOF; read error; EOF between frames; client write error; Client.Close by another goroutine; bad frames: short body, unknown tag, wrong reply type, size<7, size>msize, unknown type, Rread count>payload) injected at the middle of the batch; random: 2-32 caller goroutines x 3-16 calls over 26 client operations (incl. fid-allocating Attach/Walk/WalkGetAttr/GetXattr and fid-releasing Close/Remove) on shared and private Files, replies in tape order, server Rlerror rate 0/5/25%%, one fault at a tape-chosen request count, reply stream segmented whole/random/bytewise. Oracles: on the wire — outstanding tags pairwise distinct and not NOTAG, a fid-binding request never names NOFID nor a fid the server still has bound or is binding; per call — returned values equal the nonce-derived reply generated FOR THAT REQUEST, or its errno; after a break every pending and later call fails, after a bad frame the pending ones fail; no call hangs (quiescence with an unfinished caller).", nFaultKinds),
+		Rule:  fmt.Sprintf("directed: batches of 1-4 concurrent calls x EVERY reply permutation x %d fault kinds (none; reply cut mid-frame then EOF; read error; EOF between frames; client write error; Client.Close by another goroutine; bad frames: short body, unknown tag, wrong reply type, size<7, size>msize, unknown type, Rread count>payload) injected at the middle of the batch; allocator exhaustion: all but 1 or 3 of the 65534 tags / 4294967294 fids declared held through the verif seam p9/verif_pool.go, then 3 more concurrent calls than values are left (nothing reserved or duplicated may reach the wire, no call hangs); random: 2-32 caller goroutines x 3-16 calls over 26 client operations (incl. fid-allocating Attach/Walk/WalkGetAttr/GetXattr and fid-releasing Close/Remove) on shared and private Files, replies in tape order, server Rlerror rate 0/5/25%%, one fault at a tape-chosen request count, reply stream segmented whole/random/bytewise. Oracles: on the wire — outstanding tags pairwise distinct and not NOTAG, a fid-binding request never names NOFID nor a fid the server still has bound or is binding; per call — returned values equal the nonce-derived reply generated FOR THAT REQUEST, or its errno; after a break every pending and later call fails, after a bad frame the pending ones fail; no call hangs (quiescence with an unfinished caller).", nFaultKinds),
 		Assume: []string{"after the fake server has itself violated the protocol, fid recycling is judged no further than 'error, no hang'"},
 		Real:   []string{"p9.Client (tag/fid pools, pending map, recv arbitration)", "p9 client files", "p9 wire codec"},
 		Stub:   []string{"transport (simnet pipes)", "fake 9P server (refcodec)"},
